@@ -13,6 +13,7 @@ import (
 	"bytes"
 	"encoding/json"
 	"fmt"
+	"github.com/opsidian/parsley/ast/interpreter"
 	"go/ast"
 	"go/parser"
 	"go/token"
@@ -299,6 +300,66 @@ func scenarios() []scenario {
 				}
 			}
 			return []job{load(0), load(5)}
+		}})
+	// S11 what a run does with ITS OWN result must not show in another run's result: both evaluate a document with empty
+	// objects through the shared JSON parser and write a key into every map they were handed
+	{
+		js := ix.JSONRoot()
+		own := func(id string) job {
+			return func(pt func()) string {
+				f := text.NewFile("f", []byte(`[{}, {"a": {}}]`))
+				ctx := parsley.NewContext(parsley.NewFileSet(f), text.NewReader(f))
+				v, err := parsley.Evaluate(ctx, js)
+				var mark func(x interface{})
+				mark = func(x interface{}) {
+					switch t := x.(type) {
+					case map[string]interface{}:
+						for _, y := range t {
+							mark(y)
+						}
+						t["written by "+id] = true
+					case []interface{}:
+						for _, y := range t {
+							mark(y)
+						}
+					}
+				}
+				mark(v)
+				pt()
+				return strings.ReplaceAll(fmt.Sprintf("value=%v err=%v", v, err), id, "me")
+			}
+		}
+		sc = append(sc, scenario{name: `S11 two runs write into the (empty) objects of their own results`, bound: [2]int{1, 2},
+			threads: func() []job { return []job{own("run A"), own("run B")} }})
+	}
+	// S12 a parser that is part of a running grammar is handed to a constructor (Single) by another thread: building a
+	// parser must leave the parsers it is built from as they are
+	sc = append(sc, scenario{name: `S12 one thread parses with a shared list parser while another builds Single(list)`, bound: [2]int{1, 2},
+		threads: func() []job {
+			list := combinator.SepBy(terminal.Integer(nil), terminal.Rune(',')).Bind(interpreter.Array())
+			g1 := combinator.Sentence(list)
+			return []job{
+				func(pt func()) string {
+					var out []string
+					for _, in := range []string{"7", "7,8", "9"} {
+						pt()
+						f := text.NewFile("f", []byte(in))
+						ctx := parsley.NewContext(parsley.NewFileSet(f), text.NewReader(f))
+						v, err := parsley.Evaluate(ctx, g1)
+						out = append(out, fmt.Sprintf("%#v %v", v, err))
+					}
+					return strings.Join(out, " ; ")
+				},
+				func(pt func()) string {
+					pt()
+					g2 := combinator.Sentence(combinator.Single(list))
+					pt()
+					f := text.NewFile("f", []byte("1,2"))
+					ctx := parsley.NewContext(parsley.NewFileSet(f), text.NewReader(f))
+					n, err := parsley.Parse(ctx, g2)
+					return fmt.Sprintf("tree=%s err=%v", impl.Render(n, 1), err)
+				},
+			}
 		}})
 	return sc
 }
